@@ -10307,6 +10307,12 @@ int cg_conn_write(int fn, int B, int Z,  const char * connectname,
             cgi_error("Invalid input: number of donor points given but data is NULL");
             return CG_ERROR;
         }
+        /* the donor zone type gives the index dimension of the donor data */
+        if (donor_zonetype != CGNS_ENUMV(Structured) &&
+            donor_zonetype != CGNS_ENUMV(Unstructured)) {
+            cgi_error("Invalid zone type for donor %s: %d",donorname,donor_zonetype);
+            return CG_ERROR;
+        }
         if (donor_ptset_type!=CGNS_ENUMV(CellListDonor) &&
             donor_ptset_type!=CGNS_ENUMV(PointListDonor)) {
             cgi_error("Invalid point set type for donor %s",donorname);
